@@ -63,7 +63,10 @@ prop("C16", level="other",
 
 from . import tierc  # noqa: E402
 
-FFT_TRUST = ["L-f32div: (a as f32 / b as f32).ceil()/.floor() as usize is exact for a, b < 2^24 (external_body in the Verus file; paper proof in DESIGN.md 2.4)",
+FFT_TRUST = ["L-f32div: (a as f32 / b as f32).ceil()/.floor() as usize is exact for a, b < 2^24: external_body in the Verus file, but no longer trusted by itself - "
+             "derived on every run from the float rounding model (relative error 2^-24, representable results exact) by Z3 and cross-checked bit-precisely "
+             "by CBMC for operands < 2^8 (quick) / 2^12 (thorough); what stays trusted is that the idiom in synchro.rs is the one the lemma is about "
+             "(vlib/tierc.py rewrites exactly that shape and nothing else)",
              "num_integer::gcd divides both arguments and is >= 1 (external_body)",
              "Tier C extraction keeps the usize control statements verbatim and drops sample-storage statements (vlib/tierc.py docstring)"]
 
@@ -142,12 +145,15 @@ prop("C11", level="other", stages=[tierb_flow.c11_stage],
                  "rewrites all shared FFT work buffers before each transform. Together with the index obligations of C03 this gives per-channel independence and "
                  "untouched masked outputs; it is a frame argument, not a relational proof on values.",
      trusted_base=["vlib/tierb_flow.py classification of per-channel storage and channel loops"])
-prop("C17", level="other", stages=[tierb_flow.c17_stage],
-     technique="syntactic information-flow obligations (taint from sample storage and the sample type T to control sinks)",
+prop("C17", level="other", stages=[tierb_flow.c17_stage, tierb_async.stage_for("C17", what=("process",))],
+     technique="syntactic information-flow obligations (taint from sample storage and the sample type T to control sinks); Tier B range VCs + Z3 on "
+               "every value converted to the sample type in the stepping code",
      explanation="Control half of the property only: no value read from sample storage and nothing depending on the type parameter T (T::*, size_of::<T>, coercions) "
                  "reaches a branch or loop condition, an index or range, an assignment to control state or a returned count, in any method of the seven types, "
                  "make_interpolator's size computation and the FFT constructors. Hence f32 and f64 instantiations take identical control decisions and return "
-                 "identical counts. The numerical half (outputs equal to single precision) is not decided.",
+                 "identical counts. Of the numerical half only a necessary condition is decided: every value that the stepping code of the four asynchronous "
+                 "resamplers converts to the sample type is a bounded offset (|x| <= 4, proved from the loop invariants), never a stream position whose f32 rounding "
+                 "error would grow with the chunk size; that the outputs then agree to single precision is not decided.",
      trusted_base=["vlib/tierb_flow.py taint rules"])
 prop("C09", level="other", stages=[tierb_flow.c09_stage],
      technique="syntactic deny-list obligation over the real-time methods and everything they call in the crate; Kani/CBMC runs of the compiled "
